@@ -11,7 +11,7 @@ pub const DEF: PropDef = PropDef {
     id: "C01",
     jobs,
     required,
-    rule: "one case = one history of 1..40 pushes into one catalogue entry (value domain tiny/hostile/long by history number; region either Default or merge_regions over a source trained on the history's values; input form drawn per push); immediately after each push the returned index is read and every accessor (len, is_empty, get(i), iter, size_hint, Debug, into_owned, recursively) is compared with the pushed value. Non-trivial = at least one push verified; distinct = distinct hash of (entry, rendered operation list).",
+    rule: "one case = one history of 1..40 pushes into one catalogue entry (value domain tiny/hostile/long by history number; region either Default or merge_regions over a source trained on the history's values; input form drawn per push); immediately after each push the returned index is read and every accessor (len, is_empty, get(i), iter, size_hint, into_owned, recursively) is compared with the pushed value. Non-trivial = at least one push verified; distinct = distinct hash of (entry, rendered operation list).",
     assumptions: &[
         "the catalogue (registry.rs) and the value generators (val.rs) are finite samples of 'every composition' and 'every value'",
         "coded regions receive only data covered by the statistics of the region they were merged from (trained mode) or are in raw/default mode",
@@ -77,7 +77,7 @@ pub fn run<E: Entry>(ctx: &mut Ctx) {
         }
         pushes += 1;
         ctx.cover(&format!("form:{}:{}", E::label(), names[form]));
-        let lvl = Lvl { oob: false, debug: true, consume_str: ctx.tier == Tier::Miri };
+        let lvl = Lvl { oob: false, debug: false, consume_str: ctx.tier == Tier::Miri };
         if !live.check_one(ctx, k, lvl, "roundtrip") {
             break;
         }
